@@ -360,21 +360,20 @@ def _run_main(prog, tier):
         if what == "pdf":
             got = env.get(res_key)
             norm = guard(lambda: ex.self_attr("norm", {}))
-            # len(self.sample) and self.sample.size name the same count
-            norm = anf.subst(norm, {a: N for a in norm.all_atoms() if a[0] == "sym" and a[1].startswith("size(")})
-            got = got * norm if isinstance(got, R) else None
             want = anf.sum_(anf.exp_(-(dx * dx) / (2 * h * h)) / (N * h * anf.sqrt_(2 * anf.PI)), is_arr, R.sym("n_kept"), "ax1")
-            o = formula_ob("kernel-form", qual(ci, fn), got, want, REL, fn.lineno,
-                           what="density = sum over kept samples of exp(-(x-s)^2 / 2h^2) / (N h sqrt(2 pi))")
-            if o.ok:
-                # what is done to the array of kernel sums between the loop and the return: multiplied by self.norm exactly once
-                # (as values - re-ordering of the entries is the business of the order rule below)
-                fac = _post_factor(prog, ci, fn, loop[0], res_key.split("[")[0])
-                if fac is None or not fac.eq(R.sym("RES") * guard(lambda: Expander(prog, ci.module, ci).self_attr("norm", {}))) \
-                        and not fac.eq(R.sym("RES") * R.sym("self.norm")):
-                    o = struct_ob("kernel-form", qual(ci, fn), False,
-                                  f"between the region loop and the return the kernel sums must be multiplied by self.norm exactly once; they "
-                                  f"become {fac}", REL, fn.lineno)
+            # what is done to the array of kernel sums between the loop and the return (as values - re-ordering of the entries is the
+            # business of the order rule below): the returned value as a function of the loop's value, self.norm written out
+            fac = _post_factor(prog, ci, fn, loop[0], res_key.split("[")[0])
+            if fac is None or not isinstance(got, R):
+                o = struct_ob("kernel-form", qual(ci, fn), False,
+                              f"between the region loop and the return the kernel sums may only be scaled (by self.norm, exactly once overall); "
+                              f"what happens there is not a function of the sums alone", REL, fn.lineno)
+            else:
+                total = anf.subst(fac, {("sym", "RES"): got, ("sym", "self.norm"): norm})
+                # len(self.sample) and self.sample.size name the same count
+                total = anf.subst(total, {a: N for a in total.all_atoms() if a[0] == "sym" and a[1].startswith("size(")})
+                o = formula_ob("kernel-form", qual(ci, fn), total, want, REL, fn.lineno,
+                               what="density = sum over kept samples of exp(-(x-s)^2 / 2h^2) / (N h sqrt(2 pi))")
             obs.append(o)
         else:
             got = env.get(res_key)
@@ -402,7 +401,8 @@ def _run_main(prog, tier):
         off = attr_val.get("cdf_offsets", [])
         okoff = len(off) == 1 and any(pmatch(off[0], pt, {"_M": M}) is not None for pt in
                                       ("searchsorted(self.sample, _M - self.cutoff) / self.sample.size",
-                                       "searchsorted(self.sample, _M - self.cutoff) / len(self.sample)"))
+                                       "searchsorted(self.sample, _M - self.cutoff) / len(self.sample)",
+                                       "searchsorted(self.sample, _M - self.cutoff) / self.sample.shape[0]"))     # the sample is flattened
         if not okoff:
             why.append(f"self.cdf_offsets is `{U(off[0])[:300] if off else None}`, not the same lower indices divided by the sample size")
     obs.append(struct_ob("region-tables", qual(ci, init) + "[slices]", not why,
